@@ -64,6 +64,12 @@ func IMMSites() []Site {
 		{Tag: "promoted through local alias of *WT", Stmt: "{ type LWP = *{WT}; var lw LWP = &wt; lw.F = 1 }", Subj: SubjT, Codes: i1, Core: true},
 		{Tag: "promoted through local alias of WT", Stmt: "{ type LW = {WT}; var lw *LW = &wt; lw.F++ }", Subj: SubjT, Codes: i3},
 		{Tag: "twin promoted wtw.F", Stmt: "wtw.F = 1; wtw.Xs[0] = 1; wtw.M++", Subj: SubjTwin},
+		// the UNEXPORTED annotated type hid, reached through exported functions, variables and embedding
+		{Tag: "unexported type via GetHid().F", Stmt: "{q}GetHid().F = 1", Subj: SubjT2, Codes: i1, Core: true},
+		{Tag: "unexported type via DefaultHid.F++", Stmt: "{q}DefaultHid.F++", Subj: SubjT2, Codes: i3},
+		{Tag: "unexported type via DefaultHid.Xs[0]", Stmt: "{q}DefaultHid.Xs[0] = 1", Subj: SubjT2, Codes: i4},
+		{Tag: "unexported type promoted (&WHid{}).F+=", Stmt: "(&{q}WHid{}).F += 1", Subj: SubjT2, Codes: i2},
+		{Tag: "unexported type mut GetHid().M", Stmt: "{q}GetHid().M = 1", Subj: SubjT2Mut, Codes: i1},
 		// the generic annotated type GT[V] (instantiated as GT[int])
 		{Tag: "generic assign gx.F", Stmt: "gx.F = 1", Subj: SubjT2, Codes: i1, Core: true},
 		{Tag: "generic compound gp.F+=", Stmt: "gp.F += 1", Subj: SubjT2, Codes: i2},
@@ -143,6 +149,10 @@ func CTORSites() []Site {
 		{Tag: "T2 lit T2{}", Stmt: "_ = {T2}{}", Subj: SubjT2, Codes: c1, Core: true, PkgLevel: "var $g = {T2}{}"},
 		{Tag: "T2 new(T2)", Stmt: "_ = new({T2})", Subj: SubjT2, Codes: c2},
 		{Tag: "T2 var v T2", Stmt: "var $v {T2}; _ = $v", Subj: SubjT2, Codes: c3},
+		{Tag: "unexported type lit HidAlias{}", Stmt: "_ = {q}HidAlias{}", Subj: SubjT2, Codes: c1, Core: true},
+		{Tag: "unexported type new(HidAlias)", Stmt: "_ = new({q}HidAlias)", Subj: SubjT2, Codes: c2},
+		{Tag: "unexported type var v HidAlias", Stmt: "var $v {q}HidAlias; _ = $v", Subj: SubjT2, Codes: c3},
+		{Tag: "unexported type elided HidList{{}}", Stmt: "_ = {q}HidList{{}}", Subj: SubjT2, Codes: c1},
 		{Tag: "generic lit GT[int]{}", Stmt: "_ = {GT}[int]{}", Subj: SubjT2, Codes: c1, Core: true, PkgLevel: "var $g = {GT}[int]{}"},
 		{Tag: "generic lit &GT[string]{}", Stmt: "_ = &{GT}[string]{}", Subj: SubjT2, Codes: c1},
 		{Tag: "generic elided []GT[int]{{}}", Stmt: "_ = []{GT}[int]{{}}", Subj: SubjT2, Codes: c1},
